@@ -392,14 +392,8 @@ func runLifeCase(c *Case, env *Env) *Result {
 				wr.Fault = &WriteFault{After: st.FailAt - 1}
 			}
 			closeCh := make(chan struct{})
-			event, closed := 0, false
-			wr.OnWrite = func(int, int) {
-				if st.Cancel > 0 && event == st.Cancel-1 && !closed {
-					close(closeCh)
-					closed = true
-				}
-				event++
-			}
+			ltk := NewTicker(st.Cancel-1, closeCh, sched)
+			wr.OnWrite = ltk.OnWrite
 			var nums [][]uint64
 			var merr error
 			var mpi *PanicInfo
@@ -438,7 +432,7 @@ func runLifeCase(c *Case, env *Env) *Result {
 				return res
 			}
 			if merr != nil {
-				if wr.Fired == 0 && !(closed && errors.Is(merr, segment.ErrClosed)) {
+				if wr.Fired == 0 && !(ltk.Closed && errors.Is(merr, segment.ErrClosed)) {
 					res.Fail = apiFail("C02", "lifecycle", "merge on healthy storage", nil, merr)
 					return res
 				}
